@@ -3285,7 +3285,7 @@ sexp sexp_list_to_uvector_op(sexp ctx, sexp self, sexp_sint_t n, sexp etype, sex
   if (sexp_unbox_fixnum(etype) <= SEXP_NOT_A_UNIFORM_TYPE
       || sexp_unbox_fixnum(etype) >= SEXP_END_OF_UNIFORM_TYPES)
     return sexp_xtype_exception(ctx, self, "list->uvector: not a uniform vector type", etype);
-  if (!sexp_listp(ctx, ls)) {
+  if (sexp_not(sexp_listp(ctx, ls))) {
     res = sexp_exceptionp(ls) ? ls
       : sexp_xtype_exception(ctx, self, "list->uvector expected a list", ls);
   } else {
